@@ -272,6 +272,7 @@ def gen_control_case(rng, weights=None, maxdepth=4, allow_cut_p=0.7, nclauses=No
     taken) plus a caller top/N+1 with its own alternatives."""
     w = weights or {'and': 0.40, 'or': 0.20, 'ite': 0.18, 'then': 0.10, 'not': 0.12}
     nv = [0]
+    nl = [0]
 
     def newvar():
         nv[0] += 1
@@ -287,6 +288,15 @@ def gen_control_case(rng, weights=None, maxdepth=4, allow_cut_p=0.7, nclauses=No
         if r < 0.30 and cut_ok and allow_cut:
             return ('cut',)
         pn = rng.choice(['z', 'o', 'm', 'm', 'n'])
+        if nv[0] and rng.random() < 0.07:
+            # a clause-local variable (not in the head) aliased to a head variable, directly or inside a structure:
+            # what a later goal binds through the local name is visible through the head variable
+            nl[0] += 1
+            hvn = V('V%d' % rng.randrange(1, nv[0] + 1))
+            return ('call', C('=', V('L%d' % nl[0]), rng.choice([hvn, hvn, C('s', hvn)])))
+        if nl[0] and rng.random() < 0.25:
+            lv = V('L%d' % rng.randrange(1, nl[0] + 1))
+            return ('call', rng.choice([C(pn, lv), C(pn, lv), C('=', lv, C('s', newvar())), C('ev', lv)]))
         if nv[0] and rng.random() < 0.3:
             # reuse a variable that an earlier goal may have bound: a data-dependent test
             return ('call', C(rng.choice(['ev', 'od', 'ev', 'od', pn]), V('V%d' % rng.randrange(1, nv[0] + 1))))
@@ -318,6 +328,13 @@ def gen_control_case(rng, weights=None, maxdepth=4, allow_cut_p=0.7, nclauses=No
     for b in bodies:
         clauses.append((thead, b))
     tcall = ('call', thead)
+    if rng.random() < 0.3:
+        # the same predicate NAME with other arities (one clause / two clauses): whatever is decided per predicate
+        # (clause count, cut handling, labels) must go by name AND arity
+        for ar in rng.sample([0, 1, 2, len(vars_) + 2], 2):
+            if ar != len(vars_):
+                hv2 = [V('Z%d' % i) for i in range(ar)]
+                clauses.insert(rng.randrange(len(clauses) + 1), (C('t', *hv2) if hv2 else A('t'), ('call', C('o', hv2[0] if hv2 else V('_')))))
     clauses.append((C('top', V('W'), *vars_), ('and', ('call', C('m', V('W'))), tcall)))
     return clauses, 'top', len(vars_) + 1
 
